@@ -1411,7 +1411,7 @@ let () =
            if not (svc_wf svc0 ops) then verdict "dops" id "diff" tag "history outside the specification"
            else begin
              let want = List.map (fun (ok, held) -> (if ok then "ok" else "err") ^ "/" ^ (if held then "1" else "0")) (snd (svc_run svc0 ops)) in
-             if want = o then verdict "dops" id "ok" tag ""
+             if want = o || (want = [] && o = ["none"]) then verdict "dops" id "ok" tag ""
              else verdict "dops" id "spec:C16" tag (Printf.sprintf "service life cycle %s: reported/holds-the-address %s, expected %s" script (String.concat " " o) (String.concat " " want))
            end
          | _ -> verdict "dops" id "diff" "malformed-line" "")
